@@ -3,7 +3,7 @@ from registry_common import COMMON_ASSUME
 ENTRY = dict(
     title="Stream reassembly is fragmentation-independent; skipped frames never desync it",
     design_ref="DESIGN.md section 6 / C04",
-    prop_modules=["C04", "C04Chunks", "TieFrame", "TieReader"],
+    prop_modules=["C04", "C04Chunks", "TieFrame", "TieReader", "TieChunks"],
     technique="Lean 4 theorems by induction over frame sequences (reader model) + correspondence under 5-6 chunkings incl. lazily fed chunks",
     level_text=(
         "Proof: `C04.one_frame` (any well-formed frame, any recipient/sender/kind/payload/last byte, followed by anything, is consumed exactly "
